@@ -357,3 +357,35 @@ pub fn replay(ctx: &mut Ctx, stage: &str, case: &Value) -> Result<(), String> {
         check_message(ctx, &m)
     }
 }
+
+/// packet streams ([len u8][packet bytes]...) of 1-3 interleaved messages, for the hostile-input engine (C15)
+pub fn stream_bytes() -> impl Strategy<Value = Vec<u8>> {
+    (proptest::collection::vec(msg(), 1..4), proptest::collection::vec(0usize..3, 0..40)).prop_map(|(mut msgs, order)| {
+        let mut streams = vec![];
+        for (i, m) in msgs.iter_mut().enumerate() {
+            m.len %= 400;
+            m.channel = m.channel.wrapping_mul(4).wrapping_add(i as u32);
+            streams.push(send(m).ok().flatten().unwrap_or_default());
+        }
+        let mut pos = vec![0usize; streams.len()];
+        let mut out = vec![];
+        let mut push = |p: &Vec<u8>| {
+            out.push(p.len().min(255) as u8);
+            out.extend_from_slice(&p[..p.len().min(255)]);
+        };
+        for ch in order {
+            let ch = ch % streams.len();
+            if pos[ch] < streams[ch].len() {
+                push(&streams[ch][pos[ch]]);
+                pos[ch] += 1;
+            }
+        }
+        for ch in 0..streams.len() {
+            while pos[ch] < streams[ch].len() {
+                push(&streams[ch][pos[ch]]);
+                pos[ch] += 1;
+            }
+        }
+        out
+    })
+}
